@@ -629,6 +629,10 @@ class ADEV(Pytree):
                                 primal_outs, tangent_outs = jvp(
                                     flat_primals, canonical_tangents, **params
                                 )
+                                if eqn.primitive.multiple_results:
+                                    # JVP rules are free to return lists or tuples.
+                                    primal_outs = list(primal_outs)
+                                    tangent_outs = list(tangent_outs)
                                 tangent_outs = _instantiate_zero_tangents(tangent_outs)
 
                 if not eqn.primitive.multiple_results:
